@@ -351,3 +351,92 @@ func VerifC03_ValueMappingOff() {
 	l := root.Elems[2]
 	vrt.Assert(l.Kind == vrt.JArray && len(l.Elems) == 1 && l.Elems[0].Kind == vrt.JObject && len(l.Elems[0].Elems) == 1 && verifIntIs(out, l.Elems[0].Elems[0], v3), "C03.valuemapping-off.list-element.plain-number")
 }
+
+func init() { vrt.Register("VerifC03_UnknownSkipped", VerifC03_UnknownSkipped) }
+
+// VerifC03_UnknownSkipped: struct U{1: string a; 3: string c} and a value that carries, between a and c, an
+// unknown field 2 of shape UK with CNT elements: unless unknown fields are disallowed, the output is exactly
+// {"a":..,"c":..} - the unknown value is skipped whole, whatever its type and size.
+//   UK: 0 byte, 1 i64, 2 string, 3 list<i32>, 4 map<i32,i32>, 5 map<string,i64>, 6 map<byte,string>, 7 struct{1: list<byte>}, 8 set<double>, 9 list<string>
+func VerifC03_UnknownSkipped() {
+	uk := vrt.Param("UK")
+	cnt := vrt.Param("CNT")
+	desc := thrift.VerifStruct("U", thrift.Options{},
+		thrift.VField{ID: 1, Name: "a", Type: thrift.VerifBasic(thrift.STRING), Req: 2},
+		thrift.VField{ID: 3, Name: "c", Type: thrift.VerifBasic(thrift.STRING), Req: 2})
+	a, c := []byte{vrt.U8() & 0x7f}, []byte{vrt.U8() & 0x7f, 'c'}
+	var in []byte
+	in = vrt.PutString(vrt.PutField(in, vrt.TSTRING, 1), a)
+	switch uk {
+	case 0:
+		in = append(vrt.PutField(in, vrt.TBYTE, 2), vrt.U8())
+	case 1:
+		in = vrt.PutBE64(vrt.PutField(in, vrt.TI64, 2), int64(vrt.U64()))
+	case 2:
+		in = vrt.PutString(vrt.PutField(in, vrt.TSTRING, 2), vrt.Bytes(cnt))
+	case 3:
+		in = vrt.PutListHdr(vrt.PutField(in, vrt.TLIST, 2), vrt.TI32, cnt)
+		for i := 0; i < cnt; i++ {
+			in = vrt.PutBE32(in, int(int32(vrt.U32())))
+		}
+	case 4:
+		in = vrt.PutMapHdr(vrt.PutField(in, vrt.TMAP, 2), vrt.TI32, vrt.TI32, cnt)
+		for i := 0; i < cnt; i++ {
+			in = vrt.PutBE32(vrt.PutBE32(in, int(int32(vrt.U32()))), int(int32(vrt.U32())))
+		}
+	case 5:
+		in = vrt.PutMapHdr(vrt.PutField(in, vrt.TMAP, 2), vrt.TSTRING, vrt.TI64, cnt)
+		for i := 0; i < cnt; i++ {
+			in = vrt.PutBE64(vrt.PutString(in, vrt.Bytes(i)), int64(vrt.U64()))
+		}
+	case 6:
+		in = vrt.PutMapHdr(vrt.PutField(in, vrt.TMAP, 2), vrt.TBYTE, vrt.TSTRING, cnt)
+		for i := 0; i < cnt; i++ {
+			in = vrt.PutString(append(in, vrt.U8()), vrt.Bytes(1))
+		}
+	case 7:
+		in = vrt.PutField(in, vrt.TSTRUCT, 2)
+		in = vrt.PutListHdr(vrt.PutField(in, vrt.TLIST, 1), vrt.TBYTE, cnt)
+		for i := 0; i < cnt; i++ {
+			in = append(in, vrt.U8())
+		}
+		in = append(in, 0)
+	case 8:
+		in = vrt.PutListHdr(vrt.PutField(in, vrt.TSET, 2), vrt.TDOUBLE, cnt)
+		for i := 0; i < cnt; i++ {
+			in = vrt.PutBE64(in, int64(vrt.U64()))
+		}
+	case 9:
+		in = vrt.PutListHdr(vrt.PutField(in, vrt.TLIST, 2), vrt.TSTRING, cnt)
+		for i := 0; i < cnt; i++ {
+			in = vrt.PutString(in, vrt.Bytes(i+1))
+		}
+	}
+	in = vrt.PutString(vrt.PutField(in, vrt.TSTRING, 3), c)
+	in = append(in, 0)
+	opts := conv.Options{DisallowUnknownField: vrt.Bool()}
+	vrt.GhostReset()
+	cv := NewBinaryConv(opts)
+	out, err := cv.Do(context.Background(), desc, in)
+	if opts.DisallowUnknownField {
+		vrt.Reach("disallowed")
+		vrt.Assert(err != nil, "C03.unknown-skipped.disallowed.error")
+		return
+	}
+	vrt.Assert(err == nil, "C03.unknown-skipped.noerror")
+	if err != nil {
+		return
+	}
+	vrt.Reach("converted")
+	root, ok := vrt.JParse(out)
+	vrt.Assert(ok && root.Kind == vrt.JObject, "C03.unknown-skipped.valid-json")
+	if !ok || root.Kind != vrt.JObject {
+		return
+	}
+	vrt.Assert(len(root.Keys) == 2, "C03.unknown-skipped.member-count")
+	if len(root.Keys) != 2 {
+		return
+	}
+	vrt.Assert(verifStrIs(out, root.Keys[0], []byte("a")) && verifStrIs(out, root.Elems[0], a), "C03.unknown-skipped.field-before")
+	vrt.Assert(verifStrIs(out, root.Keys[1], []byte("c")) && verifStrIs(out, root.Elems[1], c), "C03.unknown-skipped.field-after")
+}
